@@ -261,7 +261,11 @@ impl MemoryBudget {
         let reserved = pool.reserved_size();
 
         loop {
+            #[cfg(kahflane_turdb_verif)]
+            crate::verif_hooks::yield_point("budget.alloc.load_pool");
             let current_pool_used = pool_counter.load(Ordering::Acquire);
+            #[cfg(kahflane_turdb_verif)]
+            crate::verif_hooks::yield_point("budget.alloc.load_total");
             let current_total_used = self.total_used();
             let total_limit = self.total_limit();
 
@@ -278,6 +282,8 @@ impl MemoryBudget {
 
             if pool != Pool::Shared && new_pool_used > reserved {
                 let overflow = new_pool_used - reserved;
+                #[cfg(kahflane_turdb_verif)]
+                crate::verif_hooks::yield_point("budget.alloc.load_shared");
                 let shared_available = self.shared_available();
 
                 if overflow > shared_available {
@@ -289,6 +295,8 @@ impl MemoryBudget {
                 }
             }
 
+            #[cfg(kahflane_turdb_verif)]
+            crate::verif_hooks::yield_point("budget.alloc.cas");
             match pool_counter.compare_exchange_weak(
                 current_pool_used,
                 new_pool_used,
@@ -309,8 +317,12 @@ impl MemoryBudget {
         let pool_counter = self.pool_counter(pool);
 
         loop {
+            #[cfg(kahflane_turdb_verif)]
+            crate::verif_hooks::yield_point("budget.release.load");
             let current = pool_counter.load(Ordering::Acquire);
             let new_value = current.saturating_sub(bytes);
+            #[cfg(kahflane_turdb_verif)]
+            crate::verif_hooks::yield_point("budget.release.cas");
 
             match pool_counter.compare_exchange_weak(
                 current,
